@@ -157,9 +157,13 @@ def ctor (s : DState) (op : String) (args : List Nat) (_raw : List String) : Opt
   | "hll.new", [b] => some ((Hll.new b).map (.hll · s.bh), "ok")
   | "hll.with", b :: regs => some ((Hll.withRegisters b regs.toArray).map (.hll · s.bh), "ok")
   | "hll.deser", _ =>
+    -- a leading `A` token: the same values as a positional (JSON array) document
+    let (seq, _raw) := match _raw with
+      | "A" :: rest => (true, rest)
+      | _ => (false, _raw)
     match _raw.mapM parseField with
     | none => none
-    | some doc => match Serde.deserialize doc with
+    | some doc => match (if seq then Serde.deserializeSeq doc else Serde.deserialize doc) with
       | some (h, bh) => some (some (.hll h bh), "ok")
       | none => some (some .poisoned, "err")   -- an `Err` leaves no usable instance behind
   | "bloom.new", [m, k] => some ((Bloom.new m k).map (.bloom · s.bh), "ok")
@@ -416,6 +420,16 @@ def opRes (r : Reservoir.St Rng) (op : String) (a : List Nat) : Out :=
     match go xs r with
     | some r' => .upd (.res r')
     | none => .panic
+  | "res.extendf", xs =>
+    -- `extend` through a filtering iterator: items ≥ 2^40 never reach the sampler
+    let rec goF : List Nat → Reservoir.St Rng → Option (Reservoir.St Rng)
+      | [], r => some r
+      | x :: rest, r => match Reservoir.add resRng r x with
+        | some r' => goF rest r'
+        | none => none
+    match goF (xs.filter (· < 2^40)) r with
+    | some r' => .upd (.res r')
+    | none => .panic
   | "res.get", [] => .ans (s!"{r.k} {r.i} : " ++ " ".intercalate (r.res.toList.map toString))
   | "res.empty", [] => .ans (b2s (Reservoir.isEmpty r))
   | "res.clear", [] => .upd (.res (Reservoir.clear r))
@@ -427,6 +441,13 @@ def sortNats (l : List Nat) : List Nat := l.mergeSort (fun a b => decide (a ≤ 
 def opLossy (l : Lossy.St) (eps : Float) (op : String) (a : List Nat) (raw : List String) : Out :=
   match op, a with
   | "lossy.add", [x] => let (l', r) := Lossy.add l x; .upd (.lossy l' eps) (b2s r)
+  | "lossy.addrep", [x, n] =>
+    let rec go (fuel : Nat) (l : Lossy.St) (last : Bool) : Lossy.St × Bool :=
+      match fuel with
+      | 0 => (l, last)
+      | fuel + 1 => let (l', r) := Lossy.add l x; go fuel l' r
+    let (l', r) := go n l false
+    .upd (.lossy l' eps) s!"{b2s r} {l'.n}"
   | "lossy.query", [_] => match floats raw with
     | some [thr] =>
       let ks := sortNats (Lossy.queryBound l (Sizing.lossyBound thr eps l.n))
@@ -538,6 +559,18 @@ def step1 (s : DState) (toks : List String) : DState × String :=
         | some (none, _) => ({ s with insts := s.insts.insert id .poisoned }, "panic")
         | none => (s, "bad-op")
       else if op == "drop" then ({ s with insts := s.insts.erase id }, "ok") else
+      if op.endsWith ".clonefrom" then
+        -- `Clone::clone_from`: the receiver becomes a copy of the source
+        match s.insts[id]?, args with
+        | none, _ => (s, "bad-op")
+        | some .poisoned, _ => (s, "poisoned")
+        | some _, [j] =>
+          (match s.insts[j]? with
+           | some .poisoned => (s, "poisoned")
+           | some src => ({ s with insts := s.insts.insert id src }, "ok")
+           | none => (s, "bad-op"))
+        | some _, _ => (s, "bad-op")
+      else
       let otherPoisoned := (op.endsWith ".union" || op.endsWith ".merge") &&
         (match args with
          | j :: _ => (match s.insts[j]? with | some .poisoned => true | _ => false)
